@@ -1021,7 +1021,7 @@ func (e *Env) trCall(x *ECall) (Term, Ty) {
 		// abstract content of a byte slice in the current heap
 		s, _ := arg(0)
 		g.declSort("Bytes")
-		g.sc.DeclareOnce("bytesOf", "(declare-fun bytesOf ((Array Ref Int) Slice) Bytes)")
+		g.declBytesOf()
 		h := g.heap(e.st, g.heapKeyT(types.Typ[types.Uint8]), SInt)
 		return Term{app("bytesOf", h.S, s.S), "Bytes"}, Ty{Spec: "Bytes"}
 	case "typeis":
